@@ -246,3 +246,8 @@ Definition Covering (h : hashfn) (depth : N) (limit : nat) (la lb : list entry) 
   (length (filter (in_buckets h depth dv) lb) ≤ limit)%nat.
 Definition ShortLimit (h : hashfn) (depth : N) (limit : nat) (la lb : list entry) : Prop :=
   ¬ Covering h depth limit la lb.
+
+(* executable form of [HashOK] (sound: Proofs/DigestProofs.v, hash_ok_b_sound) *)
+Definition hash_ok_b (h : hashfn) (S : list (list N)) : bool :=
+  forallb (λ x, (0 <? h x) && (h x <? M64)) S &&
+  forallb (λ x, forallb (λ y, implb (h x =? h y) (bool_decide (x = y))) S) S.
